@@ -35,13 +35,14 @@ const (
 )
 
 type world struct {
-	enc     map[string][]byte
-	hash    map[string]common.Hash
-	height  map[string]uint32
-	name    map[common.Hash]string
-	poolTx  *types.Transaction
-	u1, u2  common.Address
-	genesis common.Hash
+	enc        map[string][]byte
+	hash       map[string]common.Hash
+	height     map[string]uint32
+	name       map[common.Hash]string
+	poolTx     *types.Transaction
+	minedNames map[common.Hash]string // blocks the node under test mined in any execution (names are hash independent)
+	u1, u2     common.Address
+	genesis    common.Hash
 }
 
 var treeSpec = []string{"a1<g@0", "a2<a1@1", "a2x<a1@1", "a2m<a1@2", "b1<g@1", "b2<b1@2", "b3<b2@0"}
@@ -52,7 +53,7 @@ func buildWorld() *world {
 	dir := core.ScratchDir("c19f")
 	f := node.NewFactory(dir, nDeputies)
 	defer f.Destroy()
-	w := &world{enc: map[string][]byte{}, hash: map[string]common.Hash{}, height: map[string]uint32{}, name: map[common.Hash]string{}}
+	w := &world{minedNames: map[common.Hash]string{}, enc: map[string][]byte{}, hash: map[string]common.Hash{}, height: map[string]uint32{}, name: map[common.Hash]string{}}
 	w.u1, w.u2 = node.User(1).Addr, node.User(2).Addr
 	exp := uint64(node.GenesisTime) + 600
 	w.poolTx = node.Transfer(node.Founder(), w.u2, node.Lemo(2), exp)
@@ -122,6 +123,9 @@ func (w *world) nameOf(b *types.Block) string {
 
 func (w *world) nameOfHash(h common.Hash, height uint32) string {
 	if n, ok := w.name[h]; ok {
+		return n
+	}
+	if n, ok := w.minedNames[h]; ok {
 		return n
 	}
 	return fmt.Sprintf("other(h=%d)", height)
